@@ -175,6 +175,8 @@ func fitnessOf(fit, gen, idx, n int, org *genetics.Organism) float64 {
 		return math.Pow(2, float64(idx))
 	case 5:
 		return float64(org.Genotype.Extrons() + len(org.Genotype.Nodes))
+	case 7:
+		return float64(n - idx)
 	case 6:
 		if n <= 1 {
 			return float64(gen + 1)
@@ -298,6 +300,7 @@ type preEpoch struct {
 	species   []*genetics.Species
 	members   map[*genetics.Species][]*genetics.Organism
 	spAge     map[int]int
+	spALI     map[*genetics.Species]int
 	fit       map[*genetics.Organism]float64
 	champKeys map[*genetics.Species]map[string]bool
 	champDesc map[*genetics.Species]string
@@ -306,7 +309,7 @@ type preEpoch struct {
 }
 
 func capturePre(pop *genetics.Population, wantChamps bool) *preEpoch {
-	p := &preEpoch{members: map[*genetics.Species][]*genetics.Organism{}, spAge: map[int]int{}, fit: map[*genetics.Organism]float64{},
+	p := &preEpoch{members: map[*genetics.Species][]*genetics.Organism{}, spAge: map[int]int{}, spALI: map[*genetics.Species]int{}, fit: map[*genetics.Organism]float64{},
 		highest: pop.HighestFitness, sinceHigh: pop.EpochsHighestLastChanged}
 	p.orgs = append(p.orgs, pop.Organisms...)
 	p.species = append(p.species, pop.Species...)
@@ -320,6 +323,7 @@ func capturePre(pop *genetics.Population, wantChamps bool) *preEpoch {
 	for _, s := range pop.Species {
 		p.members[s] = append([]*genetics.Organism(nil), s.Organisms...)
 		p.spAge[s.Id] = s.Age
+		p.spALI[s] = s.AgeOfLastImprovement
 		if wantChamps {
 			best := math.Inf(-1)
 			for _, o := range s.Organisms {
@@ -359,6 +363,7 @@ type popRun struct {
 	turnover int
 	failed   bool
 	hash     []uint64
+	shape    *c09Shape // set when the run is a C09 preparation-phase shape
 	keepKeys bool     // C17: keep the textual population keys for diffing
 	keys     []string
 	// vacuity counters of this execution (merged into the Ctx by the caller)
@@ -369,6 +374,10 @@ func (r *popRun) count(k string) { r.cnt[k]++ }
 
 func (r *popRun) violate(prop, clause, msg string, epoch int) {
 	r.failed = true
+	if r.shape != nil {
+		r.violateShape(*r.shape, clause, msg)
+		return
+	}
 	sig := prop + "/" + clause
 	rp := &Replay{Scenario: "epochs", Params: r.sc.params(), Answers: r.x.Answers(), Clause: msg,
 		Trace: fmt.Sprintf("%s; epoch %d; %d draws", r.sc.String(), epoch, len(r.x.Points))}
@@ -523,7 +532,7 @@ func (r *popRun) afterConstruct(pop *genetics.Population) {
 	r.built = map[int]bool{}
 	for _, s := range pop.Species {
 		r.everSpID[s.Id] = true
-		r.built[s.Id] = true
+		r.built[s.Id] = s.IsNovel // species made by a constructor are protected from ageing once
 		if s.Id > r.maxSpID {
 			r.maxSpID = s.Id
 		}
@@ -725,6 +734,16 @@ func (r *popRun) checkQuotas(pre *preEpoch, pop *genetics.Population, epoch int)
 			r.violate("C09", "parent-cutoff-order", fmt.Sprintf("species %d eliminates an organism of adjusted fitness %g but keeps one of %g", s.Id, maxCut, minKept), epoch)
 			return
 		}
+		// age adjustment as documented (NEAT): fitness/100 once the species has gone DropOffAge
+		// generations without improvement (age - age_of_last_improvement + 1 >= dropoff_age),
+		// times AgeSignificance up to age 10; then shared by the species size
+		wantFactor := 1.0
+		if (pre.spAge[s.Id]-pre.spALI[s]+1)-r.opts.DropOffAge >= 0 {
+			wantFactor *= 0.01
+		}
+		if pre.spAge[s.Id] <= 10 {
+			wantFactor *= r.opts.AgeSignificance
+		}
 		// shared fitness: one common positive factor per species, divided by its size
 		ref := math.NaN()
 		for _, o := range mem {
@@ -733,6 +752,11 @@ func (r *popRun) checkQuotas(pre *preEpoch, pop *genetics.Population, epoch int)
 				k := o.Fitness * float64(len(mem)) / f
 				if !(k > 0) || math.IsInf(k, 0) {
 					r.violate("C09", "fitness-sharing", fmt.Sprintf("species %d: adjusted fitness %g for original %g is not a positive multiple", s.Id, o.Fitness, f), epoch)
+					return
+				}
+				if !relClose(k, wantFactor, 1e-9) {
+					r.violate("C09", "age-adjustment", fmt.Sprintf("species %d (age %d, last improved at age %d, drop-off age %d, age significance %g): adjusted fitness is original x %g / size, the documented stagnation penalty / youth boost give x %g",
+						s.Id, pre.spAge[s.Id], pre.spALI[s], r.opts.DropOffAge, r.opts.AgeSignificance, k, wantFactor), epoch)
 					return
 				}
 				if math.IsNaN(ref) {
@@ -944,9 +968,90 @@ func (r *popRun) step(ctx context.Context, pop *genetics.Population, gen int, pr
 	panic("unknown mode " + r.sc.Mode)
 }
 
+// hbSpec describes a hand-built, pre-speciated population: species sizes, ages and
+// generations since each species last improved.
+type hbSpec struct {
+	Sizes, Ages, Lags []int
+}
+
+var hbSpecs = map[string]hbSpec{
+	"hb1": {[]int{8, 8, 8}, []int{7, 7, 7}, []int{0, 2, 6}},
+	"hb2": {[]int{5, 1}, []int{11, 1}, []int{3, 0}},
+	"hb3": {[]int{1, 1, 4}, []int{20, 6, 1}, []int{16, 0, 0}},
+	"hb4": {[]int{2, 2, 2}, []int{6, 7, 11}, []int{0, 1, 2}},
+	"hb5": {[]int{10, 6, 4, 4}, []int{7, 8, 9, 12}, []int{1, 2, 3, 14}},
+	"hb6": {[]int{14, 7, 5, 4}, []int{7, 7, 7, 7}, []int{0, 0, 0, 0}},
+}
+
+// hbGenome: the XOR start genome plus k hidden nodes, each splitting gene 2->4
+// (node 5+j with genes #4+2j: 2->5+j and #5+2j: 5+j->4); weights vary with idx.
+func hbGenome(id, k, idx int) *GenomeSpec {
+	g := xorSeed()
+	g.ID = id
+	for i := range g.Genes {
+		g.Genes[i].W = 0.25 * float64(idx+1) * float64(i+1)
+		g.Genes[i].Mut = g.Genes[i].W
+	}
+	for j := 0; j < k; j++ {
+		n := 5 + j
+		g.Nodes = append(g.Nodes, NodeSpec{ID: n, Role: network.HiddenNeuron, Act: g.Nodes[3].Act, Trait: 1})
+		g.Genes = append(g.Genes, GeneSpec{In: 2, Out: n, W: 1, Innov: int64(4 + 2*j), Mut: 0, En: true, Trait: 2},
+			GeneSpec{In: n, Out: 4, W: 0.5 + 0.125*float64(idx), Innov: int64(5 + 2*j), Mut: 0, En: true, Trait: 2})
+	}
+	return g
+}
+
+func buildHandBuilt(sp hbSpec, opts *neat.Options) *genetics.Population {
+	pop := genetics.VNewEmptyPopulation()
+	id := 0
+	maxK := len(sp.Sizes)
+	for si, size := range sp.Sizes {
+		s := genetics.NewSpecies(si + 1)
+		s.Age = sp.Ages[si]
+		s.AgeOfLastImprovement = sp.Ages[si] - sp.Lags[si]
+		s.MaxFitnessEver = 1e9 // no species improves during the run unless the landscape exceeds this
+		if sp.Lags[si] == 0 {
+			s.MaxFitnessEver = 0
+		}
+		for i := 0; i < size; i++ {
+			g := hbGenome(id, si, i).Build()
+			o, _ := genetics.NewOrganism(0, g, 1)
+			o.Species = s
+			s.VAddOrganism(o)
+			pop.Organisms = append(pop.Organisms, o)
+			id++
+		}
+		pop.Species = append(pop.Species, s)
+	}
+	pop.LastSpecies = len(sp.Sizes)
+	pop.VSetCounters(int64(3+2*maxK), int32(5+maxK))
+	opts.PopSize = id
+	return pop
+}
+
+// readPopulationText renders genomes of different sizes (the structurally smallest
+// last) in the plain population format and loads them through ReadPopulation.
+func buildByReading(opts *neat.Options) (*genetics.Population, error) {
+	var b strings.Builder
+	n := opts.PopSize
+	for i := 0; i < n; i++ {
+		k := (n - 1 - i) % 3 // 2,1,0,... : the last genome is the smallest
+		g := hbGenome(i, k, i).Build()
+		if err := g.Write(&b); err != nil {
+			return nil, err
+		}
+	}
+	return genetics.ReadPopulation(strings.NewReader(b.String()), opts)
+}
+
 // construct builds the scenario's initial population (its draws are part of the execution).
 func (r *popRun) construct() (*genetics.Population, error) {
+	if sp, ok := hbSpecs[r.sc.Seed]; ok {
+		return buildHandBuilt(sp, r.opts), nil
+	}
 	switch r.sc.Seed {
+	case "read":
+		return buildByReading(r.opts)
 	case "rand":
 		return genetics.NewPopulationRandom(3, 1, 2, false, 0.5, r.opts)
 	case "randrec":
